@@ -20,17 +20,23 @@ SOURCES = ['/a/', '/b/']
 REPRS = ['plain', 'element', 'parsed']
 
 
-def base_ontology(types, sources, variant=0):
-    """The definitions are the same whenever a name occurs (compatible); variant=1 makes the ontology invalid."""
+def base_ontology(types, sources, variant=0, lvl=0):
+    """The definitions are the same whenever a name occurs (compatible); variant=1 makes the ontology invalid; lvl=1 holds
+    the upgraded object type o.e (version 2, the enumeration extended by 'c')."""
     from edxml.ontology import Ontology
     o = Ontology()
     o.create_object_type('o.s', data_type='string:0:mc:u')
     o.create_object_type('o.n', data_type='number:tinyint')
+    e = o.create_object_type('o.e', data_type='enum:a:b:c' if lvl else 'enum:a:b')
+    if lvl:
+        e.set_version(2)
     for t in types:
         et = o.create_event_type(t)
         et.create_property('p', 'o.s').make_optional().make_multivalued()
         et.create_property('q', 'o.n').make_optional()
+        et.create_property('e', 'o.e').make_optional()
         et.create_attachment('a')
+        et.create_attachment('b')
     for s in sources:
         o.create_event_source(s)
     if variant:
@@ -44,7 +50,7 @@ def merged_ontology(script):
     o = Ontology()
     for op in script:
         if op['k'] == 'ont' and op['ok']:
-            o.update(base_ontology(op['types'], op['sources']))
+            o.update(base_ontology(op['types'], op['sources'], lvl=op.get('lvl', 0)))
     return o
 
 
@@ -54,8 +60,13 @@ def event_spec(op):
         ev['props'].append(['q', ['300']])      # outside number:tinyint
     elif op.get('q'):
         ev['props'].append(['q', [op['q']]])
+    if op.get('e'):
+        ev['props'].append(['e', [op['e']]])
     if op.get('att') is not None:
         ev['atts'] = [['a', [[op['att'][0], op['att'][1]]]]]
+        if op.get('att2') is not None:
+            # a second attachment, whose identifier may be the one of the first
+            ev['atts'].append(['b', [[op['att2'][0], op['att2'][1]]]])
     if op.get('parents'):
         ev['parents'] = op['parents']
     if op.get('foreign') is not None:
@@ -66,11 +77,14 @@ def event_spec(op):
 def gen_script(rng, n):
     script = []
     idx = 0
+    level = 0      # whether an accepted ontology so far held the upgraded object type o.e
     for _ in range(n):
         r = rng.random()
         if r < 0.25 or not script:
             script.append({'k': 'ont', 'types': rng.sample(TYPES, rng.randint(0, 2)), 'sources': rng.sample(SOURCES, rng.randint(0, 2)),
-                           'ok': rng.random() < 0.9})
+                           'ok': rng.random() < 0.9, 'lvl': 1 if rng.random() < 0.3 else 0})
+            if script[-1]['ok']:
+                level = max(level, script[-1]['lvl'])
         elif r < 0.33:
             idx += 1
             script.append({'k': 'foreign', 'idx': idx})
@@ -83,6 +97,13 @@ def gen_script(rng, n):
                 op['att'] = [rng.choice(['id', 'i d', 'é', 'a"b']), rng.choice([v for v in NASTY if v != ''])]
                 if rng.random() < 0.25:
                     op['att'][1] = 'big ' * rng.randint(900, 3000)
+                if rng.random() < 0.5:
+                    op['att2'] = [op['att'][0] if rng.random() < 0.6 else 'other', rng.choice([v for v in NASTY if v != ''])]
+            if rng.random() < 0.35:
+                # a value of the enumeration: 'c' is valid only once the upgraded object type has been written
+                op['e'] = rng.choice(['a', 'c', 'c'])
+                if op['e'] == 'c' and not level:
+                    op['gate'] = False
             if rng.random() < 0.3:
                 op['parents'] = ['%040x' % rng.randint(1, 5)]
             if rng.random() < 0.3:
@@ -110,7 +131,7 @@ def write_script(script, pretty, validate=True):
     for op in script:
         try:
             if op['k'] == 'ont':
-                w.add_ontology(base_ontology(op['types'], op['sources'], variant=0 if op['ok'] else 1))
+                w.add_ontology(base_ontology(op['types'], op['sources'], variant=0 if op['ok'] else 1, lvl=op.get('lvl', 0)))
             elif op['k'] == 'foreign':
                 w.add_foreign_element(foreign_element(op['idx']))
             else:
@@ -333,6 +354,18 @@ class C02(Property):
                 yield {'kind': 'text', 'values': vals, 'rep': rng.choice(REPRS), 'pretty': rng.random() < 0.5}
         for _ in range(150 if tier == 'quick' else 3000):
             yield {'kind': 'session', 'script': gen_script(rng, rng.randint(2, 12)), 'pretty': rng.random() < 0.5}
+        for _ in range(30 if tier == 'quick' else 600):
+            # an object type is upgraded in mid session (the enumeration gains a value) while the event types that use it
+            # keep their version: events of a type that was written before use the new value right afterwards
+            t = rng.choice(TYPES)
+            src = rng.choice(SOURCES)
+            mk = lambda i, e: {'k': 'event', 'idx': i, 'type': t, 'source': src, 'gate': True, 'values': [rng.choice(['x', 'y z'])],  # noqa: E731
+                               'rep': rng.choice(REPRS), 'e': e}
+            script = [{'k': 'ont', 'types': list(TYPES), 'sources': list(SOURCES), 'ok': True, 'lvl': 0}]
+            script += [mk(i + 1, rng.choice(['a', 'b'])) for i in range(rng.randint(1, 3))]
+            script.append({'k': 'ont', 'types': rng.sample(TYPES, rng.randint(0, 2)), 'sources': [], 'ok': True, 'lvl': 1})
+            script += [mk(i + 10, 'c') for i in range(rng.randint(1, 2))]
+            yield {'kind': 'session', 'script': script, 'pretty': rng.random() < 0.5}
         for _ in range(30 if tier == 'quick' else 600):
             # two documents for the pass-through command line tools (edxml-cat, edxml-filter, edxml-replay); the second one
             # often ends with an ontology element that no event follows
